@@ -1,9 +1,461 @@
-"""C18 (continued): further contracts, written against the conventions of contracts/C18.py.
+"""C18 (continued): the public methods of WBEMSubscriptionManager that change or show the owned lists.
 
-Shared definitions can be imported from the module contracts_C18 (the file contracts/C18.py while it is being loaded)."""
+contracts/C18.py proves _create_subscription / _create_filter / _create_destination / remove_server ("the owned list
+changes exactly by what was created / deleted in the server").  Here: remove_subscriptions, remove_filter,
+remove_destinations (single path and list form), add_subscriptions (single, list, default destinations), add_filter,
+add_destination, get_owned_*, remove_all_servers, __exit__ - each cut at the proved contracts of what it calls.
+
+Conventions:
+  * one registered server 's1'; an unregistered id is 's2' (contracts labelled `unknown server`);
+  * self._g_x is a ghost field holding an ARBITRARY instance: a postcondition about it holds for every instance;
+    occurs(x, lst) = the object x itself is an element of lst (Python's `in` would compare with ==);
+  * a contract used at a call site is derived from the proved Contract object by as_callee() (same text, the server
+    ghost g_srv of C18.py renamed to self._servers['s1'], plus the modifies clause a call site needs)."""
 from pyvc.contract import Contract, Raises, LoopSpec
 from pyvc.values import *   # noqa
+from contracts_C18 import K, CONTRACTS as PROVED
 
 CONTRACTS = []
 CLASS_SPECS = {}
 LEMMAS = []
+
+# ---- vocabulary.  The registered server is reached as self._servers['s1'] (what _get_server() returns; that helper is
+# executed from its source here, not cut at a stub) and carries the ghost counters of contracts/C18.py on its connection:
+#   _g_created / _g_deleted   instances this connection created / deleted in the server,
+#   _g_refs_reported          how many referencing subscriptions the latest ReferenceNames call reported (0: no answer).
+LST = ListOf(('ref', 'CIMInstance'))
+PATH = Ref('CIMInstanceName')
+PATHS = ListOf(('ref', 'CIMInstanceName'))
+CONN = Obj('WBEMConnection', _g_created=Int, _g_deleted=Int, _g_refs_reported=Int, conn_id=Str)
+SERVER = Obj('WBEMServer', interop_ns=Str, conn=CONN)
+SRV = "self._servers['s1']"
+G_DEL = f'{SRV}.conn._g_deleted'
+G_CRE = f'{SRV}.conn._g_created'
+G_REFS = f'{SRV}.conn._g_refs_reported'
+NOT_DELETED = ('nothing-deleted-in-the-server', f'{G_DEL} == old({G_DEL})')
+NOT_CREATED = ('nothing-created-in-the-server', f'{G_CRE} == old({G_CRE})')
+CONN_ERRORS = ('CIMError', 'ConnectionError')
+
+
+def manager(*lists, **more):
+    return Obj('WBEMSubscriptionManager', _servers=Rec(s1=SERVER), _g_x=Ref('CIMInstance'),
+               **{f: Rec(s1=LST) for f in lists}, **more)
+
+
+def conn_stub(name, returns=None, counter=None, **kw):
+    """A WBEMConnection operation cut at a stub: it returns or raises CIMError / ConnectionError; the ghost counter (if
+    any) goes up by one exactly when it returns."""
+    if counter is None:
+        return Contract('pywbem/_cim_operations.py::WBEMConnection.' + name, returns=returns, trusted=True,
+                        raises={e: Raises() for e in CONN_ERRORS}, **kw)
+    same = [('server-unchanged', f'self.{counter} == old(self.{counter})')]
+    return Contract('pywbem/_cim_operations.py::WBEMConnection.' + name, returns=returns, trusted=True,
+                    modifies=[f'self.{counter}'], ensures=[('one-more', f'self.{counter} == old(self.{counter}) + 1')],
+                    raises={e: Raises(post=same) for e in CONN_ERRORS}, **kw)
+
+
+delete_c = conn_stub('DeleteInstance', counter='_g_deleted')
+refnames_c = Contract('pywbem/_cim_operations.py::WBEMConnection.ReferenceNames', returns=PATHS, trusted=True,
+                      modifies=['self._g_refs_reported'],
+                      ensures=[('the-answer-is-remembered', 'self._g_refs_reported == len(result)')],
+                      raises={e: Raises(post=[('no-answer', 'self._g_refs_reported == 0')]) for e in CONN_ERRORS},
+                      notes='ghost: the number of referencing subscriptions the server reported (0 if it did not answer)')
+
+
+def proved(name, label=None):
+    for c in list(PROVED) + CONTRACTS:
+        if c.key == K + name and c.label == label:
+            return c
+    raise KeyError(name)
+
+
+def as_callee(c, modifies, returns=None, rename=None, requires=None, handed_over=(), drop=()):
+    """A contract of this property used at a call site: same pre- and postconditions (rename: textual replacement of the
+    ghost that names the server in contracts/C18.py by self._servers['s1']); what a callee may modify is stated here and
+    is NOT checked when the callee itself is verified (frame assumption)."""
+    def r(e):
+        for a, b in (rename or {}).items():
+            e = e.replace(a, b)
+        return e
+    return Contract(c.key, returns=returns, modifies=modifies,
+                    requires=[r(q) for q in (c.requires if requires is None else requires)] + list(handed_over),
+                    ensures=[(n, r(e)) for n, e in c.ensures if n not in drop],
+                    raises={k: Raises(post=[(n, r(e)) for n, e in v.post]) for k, v in c.raises.items()},
+                    notes=f'the contract of {c.oname} (proved in this property) applied at the call site')
+
+
+def owned(field):
+    return f"self.{field}['s1']"
+
+
+def has(lst, x='self._g_x'):
+    """x is one of the entries of lst (the same object, not merely an equal one)."""
+    return f'occurs({x}, {lst})'
+
+
+def was(e):
+    return f'old({e})'
+
+
+def tail(lst):
+    return f'inst_list[old(len({lst})) - _i:]'
+
+
+IL = 'inst_list'
+X = 'self._g_x'      # the arbitrary instance
+
+
+def removal_posts(lst, path):
+    """The entries whose path equals `path` leave the list `lst`, no other entry does, nothing is added."""
+    return [('no-entry-with-that-path-is-left', f'implies({has(lst)}, not ({X}.path == {path}))'),
+            ('no-other-entry-leaves', f'implies({has(was(lst))} and not ({X}.path == {path}), {has(lst)})'),
+            ('nothing-is-added', f'len({lst}) <= old(len({lst})) and implies({has(lst)}, {has(was(lst))})')]
+
+
+def removal_loop(lst, path):
+    """Backward loop `for i in range(len(inst_list) - 1, -1, -1): if inst_list[i].path == path: del inst_list[i]`
+    over inst_list = lst."""
+    return LoopSpec(
+        types={'i': Int, 'inst': Ref('CIMInstance')}, modifies=['inst_list'],
+        invariant=[('index-stays-inside-the-list', f'len(inst_list) >= old(len({lst})) - _i'),
+                   ('visited-tail-has-no-entry-with-that-path',
+                    f'implies({has(tail(lst))}, not ({X}.path == {path}))'),
+                   ('entries-with-other-paths-are-kept',
+                    f'implies({has(was(lst))} and not ({X}.path == {path}), {has(IL)})'),
+                   ('nothing-is-added',
+                    f'len(inst_list) <= old(len({lst})) and implies({has(IL)}, {has(was(lst))})')])
+
+
+OWNS, OWNF, OWND = owned('_owned_subscriptions'), owned('_owned_filters'), owned('_owned_destinations')
+
+
+def unchanged(lst):
+    return ('owned-list-unchanged', f'{lst} == old({lst})')
+
+
+# ---- remove_subscriptions(path): DeleteInstance first, then every entry with that path leaves the owned list and no other
+# entry does; if DeleteInstance raises, the list is unchanged
+CONTRACTS.append(Contract(
+    K + 'remove_subscriptions', label='single path',
+    params={'self': manager('_owned_subscriptions'), 'server_id': Lit('s1'), 'sub_paths': PATH},
+    callees={'DeleteInstance': delete_c},
+    loops={2: removal_loop(OWNS, 'sub_paths')},
+    ensures=[('exactly-one-instance-deleted-in-the-server', f'{G_DEL} == old({G_DEL}) + 1')] + removal_posts(OWNS, 'sub_paths'),
+    raises={e: Raises(post=[unchanged(OWNS), NOT_DELETED]) for e in CONN_ERRORS},
+))
+
+# ---- remove_filter(path): refused with CIMError(CIM_ERR_FAILED) when the server reports a referencing subscription
+REFUSED = ('refused-with-CIM_ERR_FAILED-when-a-subscription-references-it',
+           f'implies({G_REFS} > 0, exc.status_code == CIM_ERR_FAILED)')
+ASKED = ('removed-only-after-the-server-reported-no-referencing-subscription', f'{G_REFS} == 0')
+CONTRACTS.append(Contract(
+    K + 'remove_filter',
+    params={'self': manager('_owned_filters'), 'server_id': Lit('s1'), 'filter_path': PATH},
+    callees={'DeleteInstance': delete_c, 'ReferenceNames': refnames_c},
+    loops={1: removal_loop(OWNF, 'filter_path')},
+    ensures=[ASKED, ('exactly-one-instance-deleted-in-the-server', f'{G_DEL} == old({G_DEL}) + 1')]
+    + removal_posts(OWNF, 'filter_path'),
+    raises={'CIMError': Raises(post=[REFUSED, unchanged(OWNF), NOT_DELETED]),
+            'ConnectionError': Raises(post=[('not-a-refusal', f'{G_REFS} == 0'), unchanged(OWNF), NOT_DELETED])},
+))
+
+# ---- remove_destinations(path): the same for a listener destination
+CONTRACTS.append(Contract(
+    K + 'remove_destinations', label='single path',
+    params={'self': manager('_owned_destinations'), 'server_id': Lit('s1'), 'destination_paths': PATH},
+    callees={'DeleteInstance': delete_c, 'ReferenceNames': refnames_c},
+    loops={2: removal_loop(OWND, 'destination_paths')},
+    ensures=[ASKED, ('exactly-one-instance-deleted-in-the-server', f'{G_DEL} == old({G_DEL}) + 1')]
+    + removal_posts(OWND, 'destination_paths'),
+    raises={'CIMError': Raises(post=[REFUSED, unchanged(OWND), NOT_DELETED]),
+            'ConnectionError': Raises(post=[('not-a-refusal', f'{G_REFS} == 0'), unchanged(OWND), NOT_DELETED])},
+))
+
+# ---- a server id that is not registered: ValueError, nothing happens
+for _fn, _p in (('remove_subscriptions', 'sub_paths'), ('remove_filter', 'filter_path'), ('remove_destinations', 'destination_paths')):
+    CONTRACTS.append(Contract(
+        K + _fn, label='unknown server',
+        params={'self': manager('_owned_subscriptions', '_owned_filters', '_owned_destinations'), 'server_id': Lit('s2'),
+                _p: Union(PATH, PATHS)},
+        never_returns=True,
+        raises={'ValueError': Raises(post=[NOT_DELETED] + [unchanged(l) for l in (OWNS, OWNF, OWND)])},
+    ))
+
+
+# ---- list forms: one call of the single-path form per list element, in order.  DELETED instances have left the list:
+# after a failure partway these are the first DELETED paths of the argument, and the lists still agree with the server
+DELETED = f'({G_DEL} - old({G_DEL}))'
+
+
+def list_posts(lst, paths, upto):
+    gone = f'forall(lambda k: not ({X}.path == {paths}[k]), 0, {upto})'
+    return [('no-entry-with-a-removed-path-is-left', f'implies({has(lst)}, {gone})'),
+            ('no-other-entry-leaves', f'implies({has(was(lst))} and forall(lambda k: not ({X}.path == {paths}[k]), 0, len({paths})), {has(lst)})'),
+            ('nothing-is-added', f'len({lst}) <= old(len({lst})) and implies({has(lst)}, {has(was(lst))})')]
+
+
+def list_loop(lst, paths, target, more=()):
+    return LoopSpec(
+        target=target, modifies=[lst, G_DEL] + list(more),
+        invariant=[('one-delete-per-element', f'{G_DEL} == old({G_DEL}) + _i'),
+                   ('entries-with-the-paths-so-far-have-left',
+                    f'implies({has(lst)}, forall(lambda k: not ({X}.path == {paths}[k]), 0, _i))'),
+                   ('entries-with-other-paths-are-kept',
+                    f'implies({has(was(lst))} and forall(lambda k: not ({X}.path == {paths}[k]), 0, _i), {has(lst)})'),
+                   ('nothing-is-added', f'len({lst}) <= old(len({lst})) and implies({has(lst)}, {has(was(lst))})')])
+
+
+for _fn, _p, _field, _lst, _t, _more in (
+        ('remove_subscriptions', 'sub_paths', '_owned_subscriptions', OWNS, 'sub_path', []),
+        ('remove_destinations', 'destination_paths', '_owned_destinations', OWND, 'dest_path', [G_REFS])):
+    CONTRACTS.append(Contract(
+        K + _fn, label='list of paths',
+        params={'self': manager(_field), 'server_id': Lit('s1'), _p: PATHS},
+        callees={_fn: as_callee(proved(_fn, 'single path'), [_lst, G_DEL] + _more)},
+        loops={1: list_loop(_lst, _p, _t, _more)},
+        ensures=[('one-delete-per-path', f'{DELETED} == len({_p})')] + list_posts(_lst, _p, f'len({_p})'),
+        raises={e: Raises(post=[('at-most-one-delete-per-path', f'0 <= {DELETED} and {DELETED} < len({_p})')]
+                          + list_posts(_lst, _p, DELETED)) for e in CONN_ERRORS},
+    ))
+
+# ---- get_owned_*: the entries of the manager's list in a NEW list (mutating the result cannot change the manager's list)
+for _fn, _field, _lst in (('get_owned_subscriptions', '_owned_subscriptions', OWNS), ('get_owned_filters', '_owned_filters', OWNF),
+                          ('get_owned_destinations', '_owned_destinations', OWND)):
+    CONTRACTS.append(Contract(
+        K + _fn, params={'self': manager(_field), 'server_id': Lit('s1')},
+        ensures=[('same-entries-in-the-same-order', f'result == {_lst}'),
+                 ('a-new-list-not-the-managers-own', f'fresh(result) and result is not {_lst}'),
+                 unchanged(_lst)],
+        raises={}))
+    CONTRACTS.append(Contract(
+        K + _fn, label='unknown server', params={'self': manager(_field), 'server_id': Lit('s2')},
+        never_returns=True, raises={'ValueError': Raises(post=[unchanged(_lst)])}))
+
+# ---- add_subscriptions(filter_path, destination_path, owned): one _create_subscription call; a permanent subscription on
+# an owned filter or an owned destination is refused with ValueError before anything is created
+create_subscription_cc = as_callee(proved('_create_subscription'), [OWNS, G_CRE], returns=Ref('CIMInstance'),
+                                   rename={'g_srv': SRV})
+
+
+def filter_is_owned():
+    """filter_path equals (==, as CIMInstanceName compares) the path of an owned filter."""
+    return f'exists(lambda j: {OWNF}[j].path == filter_path, 0, len({OWNF}))'
+
+
+def destination_is_owned(dest):
+    return f'exists(lambda j: {OWND}[j].path == {dest}, 0, len({OWND}))'
+
+
+PERMANENT_ON_OWNED = f'(not owned and ({filter_is_owned()} or {destination_is_owned("destination_paths")}))'
+GROWS = [('owned-list-grows-exactly-by-what-was-created-in-the-server',
+          f'len({OWNS}) - old(len({OWNS})) == ({G_CRE} - old({G_CRE}) if owned else 0)'),
+         ('earlier-entries-untouched', f'{OWNS}[:old(len({OWNS}))] == old({OWNS})')]
+CONTRACTS.append(Contract(
+    K + 'add_subscriptions', label='single destination',
+    params={'self': manager('_owned_subscriptions', '_owned_filters', '_owned_destinations'), 'server_id': Lit('s1'),
+            'filter_path': PATH, 'destination_paths': PATH, 'owned': Bool},
+    callees={'_create_subscription': create_subscription_cc},
+    ensures=[('one-instance-returned', 'len(result) == 1'),
+             ('no-permanent-subscription-on-an-owned-filter-or-destination', f'not old({PERMANENT_ON_OWNED})'),
+             ('a-new-owned-entry-is-the-returned-instance', f'implies(len({OWNS}) > old(len({OWNS})), {OWNS}[-1] is result[0])'),
+             unchanged(OWNF), unchanged(OWND)] + GROWS,
+    raises={'ValueError': Raises(post=[unchanged(OWNS), ('refused-before-anything-is-created',
+                                                        f'implies(old({PERMANENT_ON_OWNED}), {G_CRE} == old({G_CRE}))')]),
+            'Error': Raises(post=[unchanged(OWNS), ('not-a-refusal', f'not old({PERMANENT_ON_OWNED})')])},
+))
+
+# ---- add_subscriptions(filter_path, [destination paths], owned): one call of the single form per path, in order; the
+# result has one instance per path.  (When a call fails partway, the subscriptions created so far stay: the owned list
+# still holds exactly the earlier entries plus new ones.)
+add_subscriptions_cc = as_callee(proved('add_subscriptions', 'single destination'), [OWNS, G_CRE], returns=LST)
+
+
+def add_list_loop(paths):
+    return LoopSpec(
+        target='dest_path', modifies=[OWNS, G_CRE, 'sub_insts'], types={'new_sub_insts': LST},
+        invariant=[('one-instance-per-path-so-far', 'len(sub_insts) == _i'),
+                   GROWS[0], GROWS[1],
+                   ('no-permanent-subscription-on-an-owned-filter-or-destination-so-far',
+                    f'implies(not owned and _i > 0, not {filter_is_owned()}) and '
+                    f'implies(not owned, forall(lambda k: not {destination_is_owned(paths + "[k]")}, 0, _i))')])
+
+
+CONTRACTS.append(Contract(
+    K + 'add_subscriptions', label='list of destinations',
+    params={'self': manager('_owned_subscriptions', '_owned_filters', '_owned_destinations'), 'server_id': Lit('s1'),
+            'filter_path': PATH, 'destination_paths': PATHS, 'owned': Bool},
+    callees={'add_subscriptions': add_subscriptions_cc},
+    kinds={'sub_insts': ('ref', 'CIMInstance')},
+    loops={1: add_list_loop('destination_paths')},
+    ensures=[('one-instance-per-destination-path', 'len(result) == len(destination_paths)'),
+             ('no-permanent-subscription-on-an-owned-filter-or-destination',
+              f'implies(not owned and len(destination_paths) > 0, not {filter_is_owned()}) and '
+              f'implies(not owned, forall(lambda k: not {destination_is_owned("destination_paths[k]")}, 0, len(destination_paths)))'),
+             unchanged(OWNF), unchanged(OWND)] + GROWS,
+    raises={'ValueError': Raises(post=[GROWS[1], ('permanent-subscriptions-are-not-recorded', f'implies(not owned, {OWNS} == old({OWNS}))')]),
+            'Error': Raises(post=[GROWS[1], ('permanent-subscriptions-are-not-recorded', f'implies(not owned, {OWNS} == old({OWNS}))')])},
+))
+
+
+# ---- add_filter: the documented ValueError cases (owned: filter_id required, name rejected; permanent: name required,
+# filter_id rejected; ':' in the filter ID) are refused before anything is created; otherwise ONE _create_filter call with
+# the arguments handed over unchanged; the filter is owned iff the ID form is used
+def bad_id_or_name(idp):
+    return (f'((owned and ({idp} is None or name is not None)) or '
+            f'(not owned and (name is None or {idp} is not None)))')
+
+
+def add_posts(lst, bad):
+    return dict(
+        ensures=[('every-documented-invalid-combination-is-refused', f'not old({bad})'),
+                 ('owned-list-grows-exactly-by-what-was-created-in-the-server',
+                  f'len({lst}) - old(len({lst})) == ({G_CRE} - old({G_CRE}) if owned else 0)'),
+                 ('earlier-entries-untouched', f'{lst}[:old(len({lst}))] == old({lst})'),
+                 ('a-new-owned-entry-is-the-returned-instance', f'implies(len({lst}) > old(len({lst})), {lst}[-1] is result)')],
+        raises={'ValueError': Raises(post=[unchanged(lst), ('refused-before-anything-is-created',
+                                                            f'implies(old({bad}), {G_CRE} == old({G_CRE}))')]),
+                'TypeError': Raises(post=[unchanged(lst), NOT_CREATED]),
+                'CIMError': Raises(post=[unchanged(lst), ('not-a-refusal', f'not old({bad})')]),
+                'ConnectionError': Raises(post=[unchanged(lst), ('not-a-refusal', f'not old({bad})')])})
+
+
+BAD_FILTER_ARGS = f"({bad_id_or_name('filter_id')} or (filter_id is not None and ':' in filter_id))"
+create_filter_cc = as_callee(
+    proved('_create_filter'), [OWNF, G_CRE], returns=Ref('CIMInstance'), rename={'g_srv': SRV},
+    handed_over=[('arguments-handed-over-unchanged',
+                  'server_id == caller_server_id and query == caller_query and query_language == caller_query_language '
+                  'and filter_id == caller_filter_id and name == caller_name and source_namespace == caller_source_namespace'),
+                 ('source-namespaces-handed-over-as-a-list',
+                  '(source_namespaces is None) == (caller_source_namespaces is None) and '
+                  'implies(isinstance(caller_source_namespaces, str), source_namespaces == [caller_source_namespaces]) and '
+                  'implies(isinstance(caller_source_namespaces, list), source_namespaces == caller_source_namespaces)')])
+_add_filter = add_posts(OWNF, BAD_FILTER_ARGS)
+CONTRACTS.append(Contract(
+    K + 'add_filter',
+    params={'self': manager('_owned_filters'), 'server_id': Lit('s1'), 'source_namespaces': Union(NoneT, Str, ListOf('str'), Int),
+            'query': Str, 'query_language': Str, 'owned': Bool, 'filter_id': Opt(Str), 'name': Opt(Str),
+            'source_namespace': Opt(Str)},
+    callees={'_create_filter': create_filter_cc},
+    ensures=_add_filter['ensures'] + [('exactly-one-instance-created', f'{G_CRE} == old({G_CRE}) + 1')],
+    raises=_add_filter['raises'],
+    notes='source_namespaces: Int stands for an argument of a wrong type (TypeError)',
+))
+
+# ---- add_destination: the same discipline.  validate_persistence_type() is cut at a stub (it builds a NocaseDict):
+# None for None, 2 or 3 for a string, ValueError otherwise.
+persistence_c = Contract('pywbem/_subscription_manager.py::validate_persistence_type', returns=Opt(Int), trusted=True,
+                         ensures=[('None-for-None', '(result is None) == (pt is None)'),
+                                  ('permanent-2-or-transient-3', 'implies(result is not None, result == 2 or result == 3)')],
+                         raises={'ValueError': Raises()})
+# _create_destination is proved in contracts/C18.py for persistence_type_value 2 or 3, and below for None (permanent
+# destination without PersistenceType); an owned destination always gets 2 or 3
+_cd = proved('_create_destination')
+CONTRACTS.append(Contract(
+    _cd.key, label='permanent, no PersistenceType',
+    params=dict(_cd.params, owned=Lit(False), persistence_type_value=NoneT),
+    requires=['name is not None'], ghosts=_cd.ghosts, callees=_cd.callees, opaque=_cd.opaque, loops=_cd.loops,
+    ensures=_cd.ensures, raises=_cd.raises))
+create_destination_cc = as_callee(
+    _cd, [OWND, G_CRE], returns=Ref('CIMInstance'), rename={'g_srv': SRV},
+    requires=['persistence_type_value == 2 or persistence_type_value == 3 or (persistence_type_value is None and not owned)',
+              '(destination_id is not None) if owned else (name is not None)'],
+    handed_over=[('arguments-handed-over-unchanged',
+                  'server_id == caller_server_id and dest_url == caller_listener_url and owned == caller_owned and '
+                  'destination_id == caller_destination_id and name == caller_name'),
+                 ('owned-destinations-are-transient-unless-stated-otherwise',
+                  'implies(caller_owned and caller_persistence_type is None, persistence_type_value == 3)')])
+BAD_DESTINATION_ARGS = bad_id_or_name('destination_id')
+_add_destination = add_posts(OWND, BAD_DESTINATION_ARGS)
+del _add_destination['raises']['TypeError']
+_add_destination['raises']['KeyError'] = Raises(post=[unchanged(OWND), ('not-a-refusal', f'not old({BAD_DESTINATION_ARGS})')])
+CONTRACTS.append(Contract(
+    K + 'add_destination',
+    params={'self': manager('_owned_destinations'), 'server_id': Lit('s1'), 'listener_url': Str, 'owned': Bool,
+            'destination_id': Opt(Str), 'name': Opt(Str), 'persistence_type': Opt(Str)},
+    callees={'_create_destination': create_destination_cc, 'validate_persistence_type': persistence_c},
+    ensures=_add_destination['ensures'], raises=_add_destination['raises'],
+    notes='KeyError: documented in contracts/C18.py (_create_destination, an owned destination discovered without PersistenceType)',
+))
+
+# ---- remove_all_servers / __exit__: one remove_server() per registered server (here: the one server 's1'), so exactly
+# the owned instances are deleted and nothing owned is left; after a failure partway the lists still agree with the server
+ALL_LISTS = ('_owned_subscriptions', '_owned_filters', '_owned_destinations')
+_rs = proved('remove_server')
+
+
+def _registered(e):
+    return e.replace('g_srv', 'g_server')
+
+
+# remove_server() of a REGISTERED server never raises ValueError (contracts/C18.py cuts _get_server at a stub that may
+# always raise it): the contract of C18.py again, with _get_server executed from its source and without that outcome.
+# g_server: the server object registered as 's1' on entry (the registration itself is deleted by remove_server).
+CONTRACTS.append(Contract(
+    _rs.key, label='registered server',
+    params={'self': manager(*ALL_LISTS), 'server_id': Lit('s1')},
+    callees={'DeleteInstance': delete_c},
+    loops={n: LoopSpec(types=l.types, modifies=[_registered(m) for m in l.modifies],
+                       invariant=[(nm, _registered(e)) for nm, e in l.invariant]) for n, l in _rs.loops.items()},
+    ghost_code={k: _registered(v) for k, v in _rs.ghost_code.items()},
+    ghost_init=dict(_rs.ghost_init, g_server=SRV),
+    ensures=[(n, _registered(e)) for n, e in _rs.ensures] + [('the-server-is-unregistered', "'s1' not in self._servers")],
+    raises={k: Raises(post=[(n, _registered(e)) for n, e in v.post]) for k, v in _rs.raises.items() if k != 'ValueError'},
+))
+# at the call site the server is named self._servers['s1'] (the model keeps the registration entry: what the callee does
+# to self._servers is not part of what the caller relies on)
+remove_server_cc = as_callee(proved('remove_server', 'registered server'), [OWNS, OWNF, OWND, G_DEL], rename={'g_server': SRV},
+                             drop=['the-server-is-unregistered'])
+CONTRACTS.append(Contract(
+    K + 'remove_all_servers',
+    params={'self': manager(*ALL_LISTS)},
+    callees={'remove_server': remove_server_cc},
+    ensures=[(n, e.replace('g_srv', SRV)) for n, e in _rs.ensures],
+    raises={k: Raises(post=[(n, e.replace('g_srv', SRV)) for n, e in v.post]) for k, v in _rs.raises.items() if k != 'ValueError'},
+))
+remove_all_servers_cc = as_callee(proved('remove_all_servers'), [OWNS, OWNF, OWND, G_DEL])
+CONTRACTS.append(Contract(
+    K + '__exit__',
+    params={'self': manager(*ALL_LISTS), 'exc_type': Opt(Ref('type')), 'exc_value': Opt(Ref('BaseException')),
+            'traceback': Opt(Ref('traceback'))},
+    callees={'remove_all_servers': remove_all_servers_cc},
+    ensures=[('an-exception-of-the-with-block-is-not-swallowed', 'result is False')] + proved('remove_all_servers').ensures,
+    raises=proved('remove_all_servers').raises,
+))
+
+# ---- add_subscriptions(filter_path) without destination paths: one subscription per OWNED destination, in list order
+_default = proved('add_subscriptions', 'list of destinations')
+CONTRACTS.append(Contract(
+    K + 'add_subscriptions', label='all owned destinations',
+    params=dict(_default.params, destination_paths=NoneT),
+    callees=_default.callees, kinds=_default.kinds,
+    loops={1: LoopSpec(target='dest_path', modifies=[OWNS, G_CRE, 'sub_insts'], types={'new_sub_insts': LST},
+                       invariant=[('one-instance-per-owned-destination-so-far', 'len(sub_insts) == _i'), GROWS[0], GROWS[1],
+                                  ('a-permanent-subscription-is-never-created-here', 'implies(not owned, _i == 0)')])},
+    ensures=[('one-instance-per-owned-destination', f'len(result) == len({OWND})'),
+             ('permanent-subscriptions-on-owned-destinations-are-refused', f'implies(not owned, len({OWND}) == 0)'),
+             unchanged(OWNF), unchanged(OWND)] + GROWS,
+    raises=_default.raises,
+))
+
+# ---- NOT LOADED: documented behaviour that pywbem does not have on the unchanged tree (each is a known finding of the
+# bounded stand-in of this property; the obligations named are REFUTED when the contract is appended to CONTRACTS)
+REFUTED_ON_THE_UNCHANGED_TREE = []
+# (1) add_destination: "destination_id ... must not contain the character ':'" / "ValueError: Incorrect input parameter
+#     values" - add_filter checks this for filter_id, add_destination does not; the destination is created with a Name
+#     that no manager rediscovers.  Refuted: add_destination[colon]::every-documented-invalid-combination-is-refused
+BAD_DESTINATION_ARGS_DOC = f"({BAD_DESTINATION_ARGS} or (destination_id is not None and ':' in destination_id))"
+_doc = add_posts(OWND, BAD_DESTINATION_ARGS_DOC)
+del _doc['raises']['TypeError']
+_doc['raises']['KeyError'] = Raises(post=[unchanged(OWND), ('not-a-refusal', f'not old({BAD_DESTINATION_ARGS_DOC})')])
+REFUTED_ON_THE_UNCHANGED_TREE.append(Contract(
+    K + 'add_destination', label='colon',
+    params=proved('add_destination').params, callees=proved('add_destination').callees,
+    ensures=_doc['ensures'], raises=_doc['raises']))
+# (2) add_subscriptions on a server id that is not registered: "Raises: ... ValueError" (every other method raises
+#     ValueError through _get_server) - it raises KeyError from self._owned_destinations[server_id].
+#     Refuted: add_subscriptions[unknown server]::raises:KeyError@...
+REFUTED_ON_THE_UNCHANGED_TREE.append(Contract(
+    K + 'add_subscriptions', label='unknown server',
+    params=dict(proved('add_subscriptions', 'single destination').params, server_id=Lit('s2'),
+                destination_paths=Union(NoneT, PATH, PATHS)),
+    never_returns=True, raises={'ValueError': Raises(post=[unchanged(OWNS), NOT_CREATED])}))
